@@ -16,7 +16,7 @@ from mc.result import Result
 PROPERTY = 'C12'
 LEVEL = 'exploration'
 CHUNK = 50
-RULE = ('R: relativity {default, -rel-home, -rel-act-home, -rel-act, -rel-tmp, -rel-result, -rel-cd, -rel-here, -rel SYM over every base} x suffix {x, d/x, @[S]@/x, x@[S]@, @[P]@/x, @[P]@, empty} x chain of '
+RULE = ('R: relativity {default, -rel-home, -rel-act-home, -rel-act, -rel-tmp, -rel-result, -rel-cd, -rel-here, -rel SYM over every base} x suffix {x, d/x, @[S]@/x, x@[S]@, @[P]@/x, @[P]@, empty; after a leading @[P]@: 6 suffixes of several fragments} x chain of '
         'path definitions of depth 0..2 (thorough 3) mixing -rel SYM and @[SYM]@/suffix x cd between definition and use x phase of use; D: 5 destination roles x {accepted option, default, forbidden '
         'option, via symbol chain of depth 1..3 over every base relativity, absolute literal, absolute via string symbol} + 5 instruction shapes using ONE symbol both for the file read and the file created; Rhere: -rel-here definitions in 3 files of 3 directories in every order / in the cases of a suite run; S: 8 reading roles x every relativity option and the default; '
         'non-trivial = the path is not given by a plain relative name with the default relativity')
@@ -61,6 +61,7 @@ def cases(tier):
                 yield ('Rcd', base, derived, phase)
     for base in ROOTS:
         yield ('Rslash', base)
+        yield ('Rlead', base)
     # -rel-here in several files of several directories (the root is the directory of the file the definition stands in)
     for order in itertools.permutations(('main', 'sub', 'deep')):
         for first in (None, 'tmp', 'here'):
@@ -132,6 +133,8 @@ def run(case) -> Result:
         return _rcd(res, case, w, seam)
     if k == 'Rslash':
         return _rslash(res, case, w, seam)
+    if k == 'Rlead':
+        return _rlead(res, case, w, seam)
     if k == 'Dopt':
         return _dopt(res, case, w, seam)
     if k == 'Dsym':
@@ -297,6 +300,35 @@ def _rslash(res, case, w, seam):
         if norm != want:
             errs.append('paths %s, expected (under the symbol\'s root) %s' % (pc[0]['args'][1:], want))
     res.outcomes[('Rslash', o.ident)] += 1
+    res.nontrivial += 1
+    if errs:
+        res.violation(case, errs, {'file': text})
+    return res
+
+
+def _rlead(res, case, w, seam):
+    """A leading path-symbol reference followed by a suffix of SEVERAL fragments (constants and string references in every order):
+    the path lies under the symbol's root, whatever the last fragment is."""
+    _, base = case
+    shapes = [('@[B]@/d/@[S]@', 'd/sd'), ('@[B]@/@[S]@.txt', 'sd.txt'), ('@[B]@/@[S]@/@[S]@', 'sd/sd'), ('@[B]@/@[S]@/x', 'sd/x'), ('@[B]@/x-@[S]@-y/@[S]@', 'x-sd-y/sd'),
+              ('@[B]@/"q r"/@[S]@', 'q r/sd')]
+    lines = list(HEAD) + ['run % first', 'def path B = %sb' % (OPT[base] + ' ')]
+    lines += ['def path P%d = %s' % (i, src) for i, (src, _) in enumerate(shapes)]
+    lines += ['run % probe ' + ' '.join('@[P%d]@' % i for i in range(len(shapes))), 'run % probe2 ' + ' '.join(src for src, _ in shapes if '"' not in src), '[act]', '% atc']
+    text = '\n'.join(lines) + '\n'
+    o = cli.run_case(text)
+    errs = []
+    if o.ident != 'PASS':
+        errs.append('outcome %s / %s' % (o.ident, ' / '.join(cli.stderr_lines(o.err)[-3:])[:300]))
+    sds = _sds_of(seam.calls)
+    pc = [c for c in seam.calls if c['name'] == 'probe']
+    if pc and sds:
+        root = root_dir(base, sds, str(w.home), sds + '/act') + '/b'
+        got = [os.path.normpath(a) for a in pc[0]['args'][1:]]
+        want = [root + '/' + den for _, den in shapes]
+        if got != want:
+            errs.append('paths %s, expected (under the symbol\'s root) %s' % (pc[0]['args'][1:], want))
+    res.outcomes[('Rlead', o.ident)] += 1
     res.nontrivial += 1
     if errs:
         res.violation(case, errs, {'file': text})
